@@ -34,7 +34,7 @@ func init() {
 		Explanation: "Decides write-ordering necessary conditions for crash safety (no crash is simulated): (objects-before-refs) Remote.fetch never updates local references before the pack was fetched, Worktree.Commit never moves HEAD " +
 			"before the tree and commit objects are built; (pack-publish) in PackWriter.save no sidecar file (.idx/.rev/.promisor) is created after the .pack rename; (delete-after-close) createNewObjectPack deletes loose objects only after the pack " +
 			"writer's Close succeeded and RepackObjects deletes old packs only after createNewObjectPack succeeded; (publish-by-rename) every file creation/truncation in storage/filesystem/dotgit targets a temp file that is later renamed, an append-only log, " +
-			"or is listed as a known finding (index, config, shallow, loose refs, packed-refs fallbacks, pack sidecars are written in place). Not decided: behaviour at each crash prefix, torn writes, fsync.",
+			"or is listed as a known finding (index, config, shallow, loose refs, packed-refs fallbacks, pack sidecars are written in place); (flushed-before-publish) a bufio.Writer over a file that the function then puts in place is flushed by a non-deferred call on every path before the publishing call. Not decided: behaviour at each crash prefix, torn writes, fsync.",
 		Assumptions: []string{"rename is atomic on the underlying filesystem"},
 		Run:         runC21,
 	})
